@@ -35,15 +35,20 @@ def run_job(job, wd):
         w = None
         snapshots_ok = True
         for k, events in enumerate(parts):
+            cvk, ovk = cv, ov
+            if k >= 1 and job.get("cue_vectors2"):
+                cvk = vectors(job["cue_vectors2"], "cue_vector_dimensions", "cues")
+            if k >= 1 and job.get("outcome_vectors2"):
+                ovk = vectors(job["outcome_vectors2"], "outcome_vector_dimensions", "outcomes")
             path = os.path.join(wd, "ev%d.tab.gz" % k)
             write_event_file(path, [(list(c), list(o)) for c, o in events])
             before = None if (w is None or job["impl"] == "dict_wh") else (w.values.copy().tobytes(), dict(w.attrs),
                                               {d: list(map(str, w.coords[d].values.tolist())) for d in w.dims})
             if job["impl"] == "dict_wh":
                 w2 = wh.dict_wh(path if job.get("as_file", True) else [(list(c), list(o)) for c, o in events],
-                                eta, cv, ov, weights=w, remove_duplicates=pol)
+                                eta, cvk, ovk, weights=w, remove_duplicates=pol)
             else:
-                w2 = wh.wh(path, eta, cue_vectors=cv, outcome_vectors=ov, method=job["impl"], weights=w,
+                w2 = wh.wh(path, eta, cue_vectors=cvk, outcome_vectors=ovk, method=job["impl"], weights=w,
                            n_jobs=job.get("n_jobs", 2), n_outcomes_per_job=job.get("n_outcomes_per_job", 2),
                            remove_duplicates=pol, temporary_directory=wd,
                            events_per_temporary_file=job.get("per", 10000000))
